@@ -137,3 +137,31 @@ impl TCMaker {
         Ok(None)
     }
 }
+
+#[cfg(hotstuff_verif)]
+#[allow(clippy::type_complexity)]
+impl Aggregator {
+    /// Verification-only: sorted, plain-data view of the partial certificates.
+    pub fn verif_summary(
+        &self,
+    ) -> (
+        Vec<(Round, Digest, u32, Vec<PublicKey>)>,
+        Vec<(Round, u32, Vec<(PublicKey, Round)>)>,
+    ) {
+        let mut votes = Vec::new();
+        for (round, makers) in &self.votes_aggregators {
+            for (digest, maker) in makers {
+                let signers = maker.votes.iter().map(|(k, _)| *k).collect();
+                votes.push((*round, digest.clone(), maker.weight, signers));
+            }
+        }
+        votes.sort();
+        let mut timeouts = Vec::new();
+        for (round, maker) in &self.timeouts_aggregators {
+            let signers = maker.votes.iter().map(|(k, _, r)| (*k, *r)).collect();
+            timeouts.push((*round, maker.weight, signers));
+        }
+        timeouts.sort();
+        (votes, timeouts)
+    }
+}
